@@ -150,7 +150,7 @@ pub fn run(tier: Tier, seed: u64) -> i32 {
     }
     rep.add(reg);
     if !rep.failed() {
-        rep.add(run::run_random("random_readonly_sessions", seed, tier.pick(8000, 150000), "readonly", || run::boxed(strategy()), |c: &RoCase| eval(c)));
+        rep.add(run::run_random("random_readonly_sessions", seed, tier.pick(24000, 200000), "readonly", || run::boxed(strategy()), |c: &RoCase| eval(c)));
     }
     rep.finish()
 }
